@@ -119,7 +119,50 @@ def gen_projects(rng, quick):
         projects.append(G.rename_until_clash_free(rng, proj))
         i += 1
     projects += odd_projects(rng, i)
+    projects += size_projects(rng, quick, i + 10)
     return projects
+
+
+def size_projects(rng, quick, i0):
+    """the SIZE dimensions: number of local targets 0..9, number of tagged imports 0..4 (root and
+    aliased mixed), imported targets per package 0..5; names drawn from a pool whose initials are
+    spread over the alphabet, so local and imported names interleave in every sort order.  The
+    first shapes sit on the boundaries of the growth steps of a Go slice (3+1, 5+3, 6+2, 7+1, 9+7
+    local + imported targets, root imports), the others are random."""
+    fixed = [(3, [("root", 1)]), (5, [("root", 2), ("alias", 1)]), (6, [("root", 2)]), (7, [("root", 1)]),
+             (9, [("root", 3), ("alias", 4)]), (5, [("root", 3)]), (0, [("root", 5), ("alias", 0), ("root", 2)]),
+             (8, [("alias", 5), ("root", 1)]), (4, []), (3, [("alias", 1)])]
+    shapes = list(fixed)
+    for _ in range(6 if quick else 90):
+        shapes.append((rng.randrange(10), [(rng.choice(["root", "root", "alias"]), rng.choice([0, 1, 1, 2, 3, 4, 5])) for _ in range(rng.randrange(5))]))
+    out = []
+    for k, (nlocal, imps) in enumerate(shapes):
+        specs = [G.gen_spec(rng, j, rng.choice(PLACEMENTS), rng.choice([0, 0, 1, 2]), kind) for j, (kind, _) in enumerate(imps)]
+        proj = G.assemble(rng, "n%04d" % (i0 + k), LAYOUTS[k % len(LAYOUTS)], specs, len(imps), nlocal=nlocal)
+        for j, (_, nf) in enumerate(imps):
+            proj["packages"][j] = G.gen_package(rng, j, shape="funcs" if nf else "empty", nfuncs=nf)
+        proj["packages"] and proj["packages"][0].update(nested=None)
+        proj["size"] = {"local": nlocal, "imports": [[kd, nf] for kd, nf in imps]}
+        G.rename_until_clash_free(rng, proj)
+        # an imported root name sorts before a local one whenever both exist: give the greatest name to a local target
+        loc = proj["local"]["funcs"]
+        roots = [f for j, (kd, _) in enumerate(imps) if kd == "root" for f in proj["packages"][j]["funcs"]]
+        if loc and roots:
+            mx = max(roots, key=lambda f: f["name"])
+            ml = max(loc, key=lambda f: f["name"])
+            if mx["name"] > ml["name"]:
+                pk = next(pk for pk in proj["packages"] if mx in pk["funcs"])
+                a, b = mx["name"], ml["name"]
+                ren = {a: b}
+                mx["name"], ml["name"] = b, a
+                if pk.get("default") == a:
+                    pk["default"] = b
+                pk["aliases"] = {k2: (b if v == a else v) for k2, v in (pk.get("aliases") or {}).items()}
+                if proj["local"].get("default") == b:
+                    proj["local"]["default"] = a
+            G.oracle_expected(proj)
+        out.append(proj)
+    return out
 
 
 def odd_projects(rng, i0):
@@ -200,6 +243,13 @@ def run_project(ctx, mage, proj, outside):
         for pk in proj["packages"]:
             for a in (pk.get("aliases") or {}):
                 probes.append(a)
+        # -h of an imported and of a local name
+        obs["help"] = []
+        imported = [n for n in names if ":" in n]
+        hn = ([imported[len(imported) // 2]] if imported else []) + [n for n in names if ":" not in n][-1:]
+        for n in (hn or names[:1]):
+            rh = mage.run(cwd, pre + ["-h", n], env=fast)
+            obs["help"].append({"name": n, "rc": rh["rc"], "usage": ("mage " + n.lower()) in rh["out"], "err": rh["err"][-200:]})
         obs["alias_probes"] = []
         for a in probes[:2]:
             r4 = mage.run(cwd, pre + [a], env=fast)
@@ -328,6 +378,9 @@ def oracle(proj, obs, exposure_only=False):
         if obs["noarg_calls"] or not obs["noarg_lists"] or obs["default_mark"]:
             bad.append(("imported-default", "no default in the magefile, but mage without arguments ran %s (listing printed: %s, default mark on %s)" % (
                 obs["noarg_calls"], obs["noarg_lists"], obs["default_mark"])))
+    for h in obs.get("help", []):
+        if h["name"].lower() in exp and (h["rc"] != 0 or not h["usage"]):
+            bad.append(("help", "`mage -h %s` (a listed target): rc %d, usage line printed: %s, %s" % (h["name"], h["rc"], h["usage"], h["err"])))
     for p in obs["alias_probes"]:
         if p["word"].lower() in exp:
             continue
@@ -403,10 +456,17 @@ def run(ctx):
     cov = ctx.coverage
     combos = set()
     dist = {"specs": 0, "untagged": 0, "root": 0, "named": 0}
-    by = {"placement": {}, "group_length": {}, "spelling": {}, "kind": {}, "position": {}, "layout": {}, "raw_path_literal": {}, "tagged_package_shape": {}, "environment_of_projects_with_platform_files": {}}
+    by = {"placement": {}, "group_length": {}, "spelling": {}, "kind": {}, "position": {}, "layout": {}, "raw_path_literal": {}, "tagged_package_shape": {}, "environment_of_projects_with_platform_files": {},
+          "size_local_targets": {}, "size_tagged_imports": {}, "size_targets_per_import": {}}
     nerr = 0
     for proj, obs, ast in zip(projects, observations, asts):
         by["layout"][proj["layout"]] = by["layout"].get(proj["layout"], 0) + 1
+        if proj.get("size"):
+            sz = proj["size"]
+            by["size_local_targets"][str(sz["local"])] = by["size_local_targets"].get(str(sz["local"]), 0) + 1
+            by["size_tagged_imports"][str(len(sz["imports"]))] = by["size_tagged_imports"].get(str(len(sz["imports"])), 0) + 1
+            for kd, nf in sz["imports"]:
+                by["size_targets_per_import"][str(nf)] = by["size_targets_per_import"].get(str(nf), 0) + 1
         if any("+platform" in pk.get("shape", "") for pk in proj["packages"]):
             ek = ",".join("%s=%s" % kv for kv in sorted((proj.get("env") or {}).items())) or "plain"
             by["environment_of_projects_with_platform_files"][ek] = by["environment_of_projects_with_platform_files"].get(ek, 0) + 1
@@ -442,7 +502,7 @@ def run(ctx):
         elif not proj.get("odd"):
             for clause, detail in oracle(proj, obs):
                 ctx.violation({"kind": "oracle", "clause": clause, "detail": detail, "start": proj["layout"], "env": proj.get("env") or {}}, case=proj,
-                              extra={"observed": {k: obs.get(k) for k in ("names", "calls", "error", "stderr", "noarg_calls", "alias_probes", "args", "env")}})
+                              extra={"observed": {k: obs.get(k) for k in ("names", "calls", "error", "stderr", "noarg_calls", "alias_probes", "help", "args", "env")}})
         items.append(coq_case(proj, obs, ast["files"]))
     header = "From Mage Require Import Base.Strs Model.ImportTag Run.eval_C19.\n"
     mism = ctx.coq_eval_shards("cases_C19", header, items, per_shard=max(4, (len(items) + NCPU - 1) // NCPU))
